@@ -9,12 +9,20 @@
   model in both directions (real file → `decSnapshot`, `encSnapshot` → real loader, byte equality
   of `encSnapshot (decSnapshot file)` with the real file) and real → real.
 
-  `Fix.code` is the loader of the current tree, `Fix.fixed` the loader with the two proposed repairs
+  `Fix.code` is the loader of the pinned tree, `Fix.fixed` the loader with the three repairs
   (`dropExpired`: a pair whose deadline has passed at load time is removed again; `keepEmptyStream`:
-  a marker-only list re-creates the empty stream).  The third defect — a LIST whose first element
-  is the marker string is read back as a stream — is a property of the file format (streams are
-  written under the LIST opcode); no loader switch repairs it, so it stays an explicit exclusion
-  (`startsWithMarker`) in every variant, with witness lemmas.
+  a marker-only list re-creates the empty stream; `listEscape`: the loader's half of the escape
+  rule).  The third defect — a LIST whose first element is the marker string is read back as a
+  stream, because streams are written under the LIST opcode — is repaired inside the format by an
+  ESCAPE element: the writer (`saveSnapshot esc`, `saveValue esc` = the byte-level writer
+  `encSnapshot` / `encValue` applied to `escDataset esc` / `escValue esc`) puts the string
+  `__FERROUS_LIST_ESCAPE__` in front of a genuine list whose first element is the marker or the
+  escape string, and the loader drops a first element equal to the escape string and reads what
+  follows as a plain list.  With the rule on both sides the theorems hold for ALL lists; for the
+  tree without it the marker-headed lists stay an explicit exclusion (`startsWithMarker`), with
+  witness lemmas.  "Well-formed" is always "as written" (`valueWF (escValue esc v)`,
+  `datasetWF (escDataset esc d)`): every length field the writer emits is below 2^32, the escape
+  element included.  lib/c09.py reads both halves of the rule from rdb.rs and sets the switches.
 -/
 import FerrousSpec.Proofs.RdbSnapshot
 import FerrousSpec.Proofs.RdbTotal
@@ -70,29 +78,41 @@ theorem decString_encString_truncates (s : Bytes) (h : 16383 < s.length) (rest :
 
 /-! ### (3) values, per type -/
 
-/-- `read_key_value_with_type ∘ write_key_value = id` with the repaired loader, for EVERY value of
-    every type an engine can hold (strings, lists, sets, hashes, sorted sets with arbitrary 64-bit
-    score patterns incl. ±inf/±0/subnormals/NaN payloads, streams incl. the empty stream) with
-    arbitrary byte contents and every size below 2^32: the key comes back with exactly this value
-    and deadline, exactly the pair is consumed, the allocations are the string lengths.
-    Only exclusion: a list whose first element is the marker string (format-level collision). -/
+/-- `read_key_value_with_type ∘ write_key_value = id` with the repaired writer and loader, for EVERY
+    value of every type an engine can hold (strings, lists — also those whose first element is the
+    stream marker or the escape string —, sets, hashes, sorted sets with arbitrary 64-bit score
+    patterns incl. ±inf/±0/subnormals/NaN payloads, streams incl. the empty stream) with arbitrary
+    byte contents and every written size below 2^32: the key comes back with exactly this value and
+    deadline, exactly the pair is consumed, the allocations are the string lengths.  No exclusion. -/
 theorem decValue_encValue (db : Db) (k : Bytes) (v : Value) (dl : Option Nat)
-    (hk : strOk k = true) (hv : valueWF v = true) (hm : startsWithMarker v = false)
+    (hk : strOk k = true) (hv : valueWF (escValue true v) = true)
     (hf : k ∉ keys db) (rest : Bytes) :
-    loadTyped Fix.fixed true db (typeByte v) dl (encString k ++ (encValue v ++ rest)) =
-      .ok (k, db ++ [⟨k, v, dl⟩]) rest (k.length :: valueAllocs v) :=
-  loadTyped_encKV Fix.fixed db k v dl hk hv hm (Or.inr rfl) hf rest
+    loadTyped Fix.fixed true db (typeByte v) dl (encString k ++ (saveValue true v ++ rest)) =
+      .ok (k, db ++ [⟨k, v, dl⟩]) rest (k.length :: valueAllocs (escValue true v)) :=
+  loadTyped_encKV Fix.fixed db k v dl hk hv (Or.inr rfl) (Or.inr rfl) hf rest
 
-/-- The same for the loader of the pinned tree, outside the second deviation (empty stream). -/
+/-- The same for writer and loader of the pinned tree (no escape rule: `saveValue false v = encValue v`),
+    outside its deviations: a list headed by the marker string, an empty stream. -/
 theorem decValue_encValue_partial (db : Db) (k : Bytes) (v : Value) (dl : Option Nat)
     (hk : strOk k = true) (hv : valueWF v = true) (hm : startsWithMarker v = false)
     (hs : isEmptyStream v = false) (hf : k ∉ keys db) (rest : Bytes) :
     loadTyped Fix.code true db (typeByte v) dl (encString k ++ (encValue v ++ rest)) =
-      .ok (k, db ++ [⟨k, v, dl⟩]) rest (k.length :: valueAllocs v) :=
-  loadTyped_encKV Fix.code db k v dl hk hv hm (Or.inl hs) hf rest
+      .ok (k, db ++ [⟨k, v, dl⟩]) rest (k.length :: valueAllocs v) := by
+  have h := loadTyped_encKV Fix.code db k v dl hk (by simpa using hv) (Or.inl hm) (Or.inl hs) hf rest
+  simpa [saveValue] using h
 
-/-- witness (both loaders): the well-formed LIST `[marker, "1-0", "1", "f", "v"]` under key `k`
-    is read back as a STREAM with the entry `1-0 {f: v}`. -/
+/-- The escape rule alone: ANY loader that knows it (`listEscape`), whatever its other switches,
+    reads back EVERY well-formed list written by a writer that applies it. -/
+theorem decList_encList (fix : Fix) (hfix : fix.listEscape = true) (db : Db) (k : Bytes) (xs : List Bytes)
+    (dl : Option Nat) (hk : strOk k = true) (hv : valueWF (escValue true (.list xs)) = true)
+    (hf : k ∉ keys db) (rest : Bytes) :
+    loadTyped fix true db 1 dl (encString k ++ (saveValue true (.list xs) ++ rest)) =
+      .ok (k, db ++ [⟨k, .list xs, dl⟩]) rest (k.length :: valueAllocs (escValue true (.list xs))) := by
+  have h := loadTyped_list fix db k xs dl hk (by rw [hfix]; exact hv) (Or.inr hfix) hf rest
+  rwa [hfix] at h
+
+/-- witness (writer WITHOUT the escape rule, every loader): the well-formed LIST
+    `[marker, "1-0", "1", "f", "v"]` under key `k` is read back as a STREAM with the entry `1-0 {f: v}`. -/
 theorem decValue_fails_marker_list :
     valueWF (.list [marker, [49, 45, 48], [49], [102], [118]]) = true ∧
     ∀ fix : Fix, loadTyped fix true [] 1 none
@@ -100,11 +120,11 @@ theorem decValue_fails_marker_list :
       .ok ([107], [⟨[107], .stream [⟨1, 0, [([102], [118])]⟩], none⟩]) [] [1, 25, 3, 1, 1, 1] := by
   refine ⟨by decide, ?_⟩
   intro fix
-  obtain ⟨a, b⟩ := fix
-  cases a <;> cases b <;> decide
+  obtain ⟨a, b, c⟩ := fix
+  cases a <;> cases b <;> cases c <;> decide
 
-/-- witness: the one-element LIST `[marker]` is lost by the pinned loader (no key at all) and comes
-    back as an empty STREAM with the repaired one. -/
+/-- witness (writer WITHOUT the escape rule): the one-element LIST `[marker]` is lost by the pinned
+    loader (no key at all) and comes back as an empty STREAM with a loader that keeps empty streams. -/
 theorem decValue_fails_marker_only_list :
     valueWF (.list [marker]) = true ∧
     loadTyped Fix.code true [] 1 none (encString [107] ++ encValue (.list [marker])) = .ok ([107], []) [] [1, 25] ∧
@@ -122,41 +142,68 @@ theorem decValue_fails_empty_stream :
 
 /-! ### (4) the whole snapshot -/
 
-/-- What the loader (any switch setting) yields from the writer's output, for EVERY valid dataset
-    (all 16 databases, all six types, arbitrary bytes, every size below 2^32), every save instant
-    `t` and load instant `t'`: `loadedDataset`, i.e. key by key — not written if its deadline was
-    before `t`; unchanged (value and deadline) if its deadline is after `t'` or it has none;
-    otherwise dropped (`dropExpired`) or kept WITHOUT a deadline (pinned tree).  Nothing is left
-    unread, and the checksum/EOF/aux/resize fields are consumed. -/
+/-- What the loader (any switch setting) yields from the output of the writer that agrees with it
+    on the escape rule, for EVERY valid dataset (all 16 databases, all six types, arbitrary bytes,
+    every written size below 2^32), every save instant `t` and load instant `t'`: `loadedDataset`,
+    i.e. key by key — not written if its deadline was before `t`; unchanged (value and deadline) if
+    its deadline is after `t'` or it has none; otherwise dropped (`dropExpired`) or kept WITHOUT a
+    deadline (pinned tree).  Nothing is left unread, and the checksum/EOF/aux/resize fields are
+    consumed.  Marker-headed lists are excluded only without the escape rule, empty streams only
+    for a loader that does not keep them. -/
 theorem snapshot_load (fix : Fix) (ver : Bytes) (d : Dataset) (t t' : Nat)
-    (hver : ver.length < 2 ^ 32) (ht : t < 2 ^ 64) (hwf : datasetWF d = true)
-    (hm : anyEntry (fun e => startsWithMarker e.val) d = false)
+    (hver : ver.length < 2 ^ 32) (ht : t < 2 ^ 64) (hwf : datasetWF (escDataset fix.listEscape d) = true)
+    (hm : anyEntry (fun e => startsWithMarker e.val) d = false ∨ fix.listEscape = true)
     (hs : anyEntry (fun e => isEmptyStream e.val) d = false ∨ fix.keepEmptyStream = true) :
-    decSnapshot fix (encSnapshot ver d t) t' = .ok (loadedDataset fix t t' d) :=
+    decSnapshot fix (saveSnapshot fix.listEscape ver d t) t' = .ok (loadedDataset fix t t' d) :=
   decSnapshot_encSnapshot fix ver d t t' (by simpa [two32] using hver) (by simpa [two64] using ht)
     (datasetOk_of_wf fix d hwf hm hs)
 
-/-- THE PROPERTY (repaired loader): SAVE at `t`, restart at `t' ≥ t` yields exactly the keys whose
-    deadline has not passed at `t'`, each with the same value (list order, set members, hash
-    fields, member scores, stream entries with IDs and fields) and the same deadline; keys whose
-    deadline passed while the server was down are absent. -/
+/-- THE PROPERTY (repaired writer and loader): SAVE at `t`, restart at `t' ≥ t` yields exactly the
+    keys whose deadline has not passed at `t'`, each with the same value (list order — whatever the
+    first element —, set members, hash fields, member scores, stream entries with IDs and fields)
+    and the same deadline; keys whose deadline passed while the server was down are absent.
+    For EVERY dataset that is well-formed as written; no exclusion. -/
 theorem snapshot_roundtrip (ver : Bytes) (d : Dataset) (t t' : Nat) (htt : t ≤ t')
-    (hver : ver.length < 2 ^ 32) (ht : t < 2 ^ 64) (hwf : datasetWF d = true)
-    (hm : anyEntry (fun e => startsWithMarker e.val) d = false) :
-    decSnapshot Fix.fixed (encSnapshot ver d t) t' = .ok (live t' d) := by
-  rw [snapshot_load Fix.fixed ver d t t' hver ht hwf hm (Or.inr rfl)]
-  rw [loadedDataset_eq_live Fix.fixed t t' d htt (Or.inl rfl)]
+    (hver : ver.length < 2 ^ 32) (ht : t < 2 ^ 64) (hwf : datasetWF (escDataset true d) = true) :
+    decSnapshot Fix.fixed (saveSnapshot true ver d t) t' = .ok (live t' d) := by
+  have h := snapshot_load Fix.fixed ver d t t' hver ht hwf (Or.inr rfl) (Or.inr rfl)
+  rw [loadedDataset_eq_live Fix.fixed t t' d htt (Or.inl rfl)] at h
+  exact h
 
-/-- The pinned tree: the same, provided no key's deadline falls into `[t, t']` and there is no
-    empty stream (decidable exclusions `expiresInDowntime`, `isEmptyStream`). -/
+/-- The pinned tree (no escape rule: its writer is `encSnapshot`): the same, provided no list is
+    headed by the marker string, no key's deadline falls into `[t, t']` and there is no empty stream
+    (decidable exclusions `startsWithMarker`, `expiresInDowntime`, `isEmptyStream`). -/
 theorem snapshot_roundtrip_partial (ver : Bytes) (d : Dataset) (t t' : Nat) (htt : t ≤ t')
     (hver : ver.length < 2 ^ 32) (ht : t < 2 ^ 64) (hwf : datasetWF d = true)
     (hm : anyEntry (fun e => startsWithMarker e.val) d = false)
     (hs : anyEntry (fun e => isEmptyStream e.val) d = false)
     (hx : anyEntry (expiresInDowntime t t') d = false) :
     decSnapshot Fix.code (encSnapshot ver d t) t' = .ok (live t' d) := by
-  rw [snapshot_load Fix.code ver d t t' hver ht hwf hm (Or.inl hs)]
-  rw [loadedDataset_eq_live Fix.code t t' d htt (Or.inr hx)]
+  have h := snapshot_load Fix.code ver d t t' hver ht (by simpa using hwf) (Or.inl hm) (Or.inl hs)
+  rw [loadedDataset_eq_live Fix.code t t' d htt (Or.inr hx)] at h
+  simpa using h
+
+/-- The escape rule changes no byte of a dump that holds no list headed by the marker or the escape
+    string (`reservedHead`): the files of a writer with and without the rule are equal. -/
+theorem snapshot_bytes_unchanged (esc : Bool) (ver : Bytes) (d : Dataset) (t : Nat)
+    (h : anyEntry (fun e => reservedHead e.val) d = false) :
+    saveSnapshot esc ver d t = encSnapshot ver d t := by
+  unfold saveSnapshot
+  rw [escDataset_of_no_reserved esc d h]
+
+/-- Hence mixed versions agree on every such dataset: a dump written WITHOUT the rule (an old
+    server's `dump.rdb`) is loaded by a loader that knows the rule exactly as before, and a dump
+    written WITH the rule is loaded by an old loader exactly as before — for every pair of switch
+    settings `esc` (writer) and `fix` (loader). -/
+theorem snapshot_load_across_versions (esc : Bool) (fix : Fix) (ver : Bytes) (d : Dataset) (t t' : Nat)
+    (hver : ver.length < 2 ^ 32) (ht : t < 2 ^ 64) (hwf : datasetWF d = true)
+    (hr : anyEntry (fun e => reservedHead e.val) d = false)
+    (hs : anyEntry (fun e => isEmptyStream e.val) d = false ∨ fix.keepEmptyStream = true) :
+    decSnapshot fix (saveSnapshot esc ver d t) t' = .ok (loadedDataset fix t t' d) := by
+  rw [snapshot_bytes_unchanged esc ver d t hr, ← snapshot_bytes_unchanged fix.listEscape ver d t hr]
+  refine snapshot_load fix ver d t t' hver ht ?_ (Or.inl ?_) hs
+  · rw [escDataset_of_no_reserved _ d hr]; exact hwf
+  · exact anyEntry_mono _ _ d (fun e he => startsWithMarker_le_reservedHead e.val he) hr
 
 /-- witness: `SET k v PX 500` at 1000, SAVE at 1000, restart at 2000.  The property prescribes an
     empty dataset; the pinned loader yields the key WITHOUT a deadline (it never expires). -/
@@ -166,7 +213,10 @@ theorem snapshot_roundtrip_fails_expired :
     decSnapshot Fix.code (encSnapshot [48, 46, 49, 46, 48] [(0, [⟨[107], .str [118], some 1500⟩])] 1000) 2000 =
       .ok [(0, [⟨[107], .str [118], none⟩])] := by
   refine ⟨by decide, by decide, ?_⟩
-  rw [snapshot_load Fix.code _ _ 1000 2000 (by decide) (by decide) (by decide) (by decide) (Or.inl (by decide))]
+  have h := snapshot_load Fix.code [48, 46, 49, 46, 48] [(0, [⟨[107], .str [118], some 1500⟩])] 1000 2000
+    (by decide) (by decide) (by decide) (Or.inl (by decide)) (Or.inl (by decide))
+  simp only [Fix.code_listEscape, saveSnapshot_false] at h
+  rw [h]
   exact congrArg Except.ok (by decide)
 
 /-- In general (pinned tree): EVERY key whose deadline lies in `[t, t']` comes back immortal. -/
@@ -188,7 +238,7 @@ theorem snapshot_roundtrip_fails_empty_stream :
   unfold decSnapshot
   rw [h]
 
-/-- witness (both loaders): the LIST `[marker, "a"]` makes the WHOLE dump unloadable — the entry loop
+/-- witness (writer WITHOUT the escape rule, every loader): the LIST `[marker, "a"]` makes the WHOLE dump unloadable — the entry loop
     breaks at once, leaves `"a"` unread, and the opcode loop then takes its length byte for a type
     byte: the restart restores nothing after that point (here: a 8448-byte string is demanded). -/
 theorem snapshot_fails_marker_list_unloadable :
@@ -201,10 +251,33 @@ theorem snapshot_fails_marker_list_unloadable :
   have h : decSnapshotT fix
       (encSnapshot [48, 46, 49, 46, 48] [(0, [⟨[110], .list [marker, [97]], none⟩, ⟨[111], .str [118], none⟩])] 1000) 2000 =
       .err (.shortString 8448 13) [9, 5, 5, 1, 1, 25] := by
-    obtain ⟨a, b⟩ := fix
-    cases a <;> cases b <;> decide
+    obtain ⟨a, b, c⟩ := fix
+    cases a <;> cases b <;> cases c <;> decide
   unfold decSnapshot
   rw [h]
+
+/-- witness (mixed versions): the dump of a writer WITH the rule read by the pinned loader — the list
+    `[marker, "a"]` comes back as `[escape, marker, "a"]`: one odd extra element in exactly the lists
+    the rule touches, the rest of the dump is unharmed (compare `snapshot_fails_marker_list_unloadable`);
+    and an escape-headed list written WITHOUT the rule loses that element in a loader that knows it. -/
+theorem snapshot_mixed_versions_one_extra_element :
+    decSnapshot Fix.code
+        (saveSnapshot true [48, 46, 49, 46, 48] [(0, [⟨[110], .list [marker, [97]], none⟩, ⟨[111], .str [118], none⟩])] 1000) 2000 =
+      .ok [(0, [⟨[110], .list [escape, marker, [97]], none⟩, ⟨[111], .str [118], none⟩])] ∧
+    decSnapshot Fix.fixed
+        (saveSnapshot false [48, 46, 49, 46, 48] [(0, [⟨[110], .list [escape, [97]], none⟩, ⟨[111], .str [118], none⟩])] 1000) 2000 =
+      .ok [(0, [⟨[110], .list [[97]], none⟩, ⟨[111], .str [118], none⟩])] := by
+  constructor
+  · have h : decSnapshotT Fix.code
+        (saveSnapshot true [48, 46, 49, 46, 48] [(0, [⟨[110], .list [marker, [97]], none⟩, ⟨[111], .str [118], none⟩])] 1000) 2000 =
+        .ok [(0, [⟨[110], .list [escape, marker, [97]], none⟩, ⟨[111], .str [118], none⟩])] [] [9, 5, 5, 1, 1, 23, 25, 1, 1, 1] := by decide
+    unfold decSnapshot
+    rw [h]
+  · have h : decSnapshotT Fix.fixed
+        (saveSnapshot false [48, 46, 49, 46, 48] [(0, [⟨[110], .list [escape, [97]], none⟩, ⟨[111], .str [118], none⟩])] 1000) 2000 =
+        .ok [(0, [⟨[110], .list [[97]], none⟩, ⟨[111], .str [118], none⟩])] [] [9, 5, 5, 1, 1, 23, 1, 1, 1] := by decide
+    unfold decSnapshot
+    rw [h]
 
 /-- The loader model is total for the right reason: on EVERY byte string (not only on files the
     writer produced) `decSnapshot` answers with a dataset or with one of the loader's own errors —
@@ -223,10 +296,10 @@ theorem decSnapshot_total (fix : Fix) (bs : Bytes) (now : Nat) :
 /-- For C10: on a valid file the loader's allocations are exactly the string lengths, in file
     order — in particular each is bounded by the bytes that follow its length field. -/
 theorem snapshot_allocs (fix : Fix) (ver : Bytes) (d : Dataset) (t t' : Nat)
-    (hver : ver.length < 2 ^ 32) (ht : t < 2 ^ 64) (hwf : datasetWF d = true)
-    (hm : anyEntry (fun e => startsWithMarker e.val) d = false)
+    (hver : ver.length < 2 ^ 32) (ht : t < 2 ^ 64) (hwf : datasetWF (escDataset fix.listEscape d) = true)
+    (hm : anyEntry (fun e => startsWithMarker e.val) d = false ∨ fix.listEscape = true)
     (hs : anyEntry (fun e => isEmptyStream e.val) d = false ∨ fix.keepEmptyStream = true) :
-    allocTrace fix (encSnapshot ver d t) t' = snapshotAllocs ver d t := by
+    allocTrace fix (saveSnapshot fix.listEscape ver d t) t' = snapshotAllocs ver (escDataset fix.listEscape d) t := by
   unfold allocTrace
   rw [decSnapshotT_encSnapshot fix ver d t t' (by simpa [two32] using hver) (by simpa [two64] using ht)
     (datasetOk_of_wf fix d hwf hm hs)]
@@ -259,9 +332,44 @@ example : anyEntry (expiresInDowntime 1000 1400) sample = false := by decide
 /-- `live` drops `k4` (1500 ≤ 2000) and the key saved with deadline 900; database 15 keeps one key -/
 example : (live 2000 sample).map (fun p => (p.1, p.2.map (·.key))) =
     [(0, [[107, 49], [107, 50], [107, 51], [107, 53], [107, 54]]), (15, [marker])] := by decide
-/-- the hypotheses of the value theorem: a 3-element list, stored next to another key -/
-example : strOk [107] = true ∧ valueWF (.list [[97], [], marker]) = true ∧
+/-- the hypotheses of the value theorems: a 3-element list, stored next to another key -/
+example : strOk [107] = true ∧ valueWF (.list [[97], [], marker]) = true ∧ valueWF (escValue true (.list [[97], [], marker])) = true ∧
     startsWithMarker (.list [[97], [], marker]) = false ∧ [107] ∉ keys [⟨[108], .str [], none⟩] := by decide
+
+/-- the lists the escape rule is about — headed by the marker, by the escape, by both, alone or with
+    a tail that looks like a stream entry —, in two databases, with TTLs, next to a real stream with
+    the same contents, the empty stream and an expired key -/
+def reserved : Dataset :=
+  [ (0, [ ⟨[97], .list [marker], none⟩,
+          ⟨[98], .list [marker, [97]], some 5000⟩,
+          ⟨[99], .list [marker, [49, 45, 48], [49], [102], [118]], none⟩,
+          ⟨[100], .stream [⟨1, 0, [([102], [118])]⟩], some 5000⟩,
+          ⟨[101], .stream [], none⟩,
+          ⟨[102], .list [escape], some 1500⟩ ]),
+    (7, [ ⟨[97], .list [escape, marker], some 5000⟩,
+          ⟨[98], .list [escape, escape, marker, [97]], none⟩,
+          ⟨[99], .list [marker, escape], none⟩,
+          ⟨marker, .list [[97], marker, escape], none⟩,
+          ⟨escape, .set [escape, marker], none⟩ ]) ]
+
+example : datasetWF (escDataset true reserved) = true := by decide
+example : anyEntry (fun e => startsWithMarker e.val) reserved = true ∧ anyEntry (fun e => reservedHead e.val) reserved = true := by decide
+/-- what the writer with the rule puts under the LIST opcode -/
+example : (escDataset true reserved).map (fun p => p.2.map fun e => e.val) =
+    [ [ .list [escape, marker], .list [escape, marker, [97]], .list [escape, marker, [49, 45, 48], [49], [102], [118]],
+        .stream [⟨1, 0, [([102], [118])]⟩], .stream [], .list [escape, escape] ],
+      [ .list [escape, escape, marker], .list [escape, escape, escape, marker, [97]], .list [escape, marker, escape],
+        .list [[97], marker, escape], .set [escape, marker] ] ] := by decide
+/-- the full statement applies to it: everything comes back but the key whose deadline (1500) passed -/
+example : decSnapshot Fix.fixed (saveSnapshot true [48, 46, 49, 46, 48] reserved 1000) 2000 = .ok (live 2000 reserved) :=
+  snapshot_roundtrip _ reserved 1000 2000 (by decide) (by decide) (by decide) (by decide)
+example : (live 2000 reserved).map (fun p => (p.1, p.2.length)) = [(0, 5), (7, 5)] := by decide
+/-- one value: `[marker]`, which the pinned tree loses (`decValue_fails_marker_only_list`) -/
+example : loadTyped Fix.fixed true [] 1 none (encString [107] ++ (saveValue true (.list [marker]) ++ [255])) =
+    .ok ([107], [⟨[107], .list [marker], none⟩]) [255] [1, 23, 25] :=
+  decValue_encValue [] [107] (.list [marker]) none (by decide) (by decide) (by decide) [255]
+/-- `sample` holds no such list: its dump is the same with and without the rule, for every loader -/
+example : anyEntry (fun e => reservedHead e.val) sample = false := by decide
 /-- the boundary lengths are instances of the general length theorem -/
 example : readLen (encLen 63 ++ [9]) = .ok 63 [9] [] := decLen_encLen 63 (by decide) [9]
 example : readLen (encLen 64 ++ [9]) = .ok 64 [9] [] := decLen_encLen 64 (by decide) [9]
